@@ -65,23 +65,62 @@ Definition get_case : dec case :=
   a <- get_z ;; b <- get_z ;; o <- get_z ;; g <- get_z ;;
   ret (Case k p (Inputs nb na iv (rn, rd) dis (Ari s ws we)) wc wa wi a b o g).
 
+(** ari-refresh cases: the renewal info of [inp c] is what the real [Config.updateARI] left on the
+    returned certificate / the cache entry / in the stored metadata, after the issuer answered
+    [fresh] for a certificate carrying [old]; [obs c] is the real decision on that copy.
+    (a) the info equals the model's [refresh_ari old fresh] and the decision equals the model's
+    decision for THAT info; (b) the info satisfies [refresh_ok] (the CA's window, selected time unset
+    or inside it) and the decision satisfies [spec_ok] for the info it was taken on. *)
+Definition xcase := (case * option (ari_info * ari_info))%type.
+
+Definition with_case_ari (c : case) (a : ari_info) : case :=
+  Case (kind c) (present c) (with_ari (inp c) a) (w_cfg c) (w_ari c) (w_imm c) (t0 c) (t1 c) (obs c) (go_class c).
+
+Definition x_model_agrees (x : xcase) : bool :=
+  match snd x with
+  | None => model_agrees (fst x)
+  | Some (old, fresh) =>
+      let expected := refresh_ari old fresh in
+      ari_eqb (ari (inp (fst x))) expected && model_agrees (with_case_ari (fst x) expected)
+  end.
+
+Definition x_spec_holds (x : xcase) : bool :=
+  match snd x with
+  | None => spec_holds (fst x)
+  | Some (old, fresh) => refresh_ok old fresh (ari (inp (fst x))) && spec_holds (fst x)
+  end.
+
+Definition get_ari : dec ari_info := s <- get_optz ;; ws <- get_optz ;; we <- get_optz ;; ret (Ari s ws we).
+Definition get_xcase : dec xcase :=
+  c <- get_case ;; r <- get_opt (get_pair get_ari get_ari) ;; ret (c, r).
+
 Definition check_line (l : list Z) : Z :=
-  match decode get_case l with
-  | Some c => code (model_agrees c) (spec_holds c)
+  match decode get_xcase l with
+  | Some x => code (x_model_agrees x) (x_spec_holds x)
   | None => code_decode_error
   end.
 
 Definition b2z (b : bool) : Z := if b then 1 else 0.
 (** diagnostics: class, model verdict at t0 / t1 (-1 = rnd-dependent), oracle_ok, exact float64
-    windows, must_renew t0, must_wait t1 *)
+    windows, must_renew t0, must_wait t1; for ari-refresh cases five more (see below) *)
 Definition explain_line (l : list Z) : list Z :=
-  match decode get_case l with
-  | Some c =>
+  match decode get_xcase l with
+  | Some (c, rf) =>
       let i := inp c in
       let L := expires_at (not_after i) - not_before i in
       let ov (o : option verdict) := match o with Some v => verdict_code v | None => -1 end in
       [fst (classify c); ov (model_at c (t0 c)); ov (model_at c (t1 c)); b2z (oracle_ok c);
        scale_f64 L (eff_ratio (cfg_ratio i)); scale_f64 L (eff_ratio ari_emergency_ratio);
        scale_f64 L (eff_ratio imminent_ratio); b2z (must_renew i (t0 c)); b2z (must_wait i (t1 c))]
+      ++ match rf with
+         | None => []
+         | Some (old, fresh) =>
+             (* refresh: info = expected, refresh_ok, well-formed, expected selected time (-1 unset),
+                model verdict at t0 for the expected info *)
+             let e := refresh_ari old fresh in
+             [b2z (ari_eqb (ari i) e); b2z (refresh_ok old fresh (ari i)); b2z (ari_wfb (ari i));
+              match sel e with Some s => s | None => -1 end;
+              ov (model_at (with_case_ari c e) (t0 c))]
+         end
   | None => []
   end.
